@@ -336,17 +336,25 @@ def default_case(case):
     iso, gui = Isothermal(T=1000.0), Guillot2010()
     model = _Holder([iso, gui])
     obs = _Holder([])
+    if case.get('on_obs'):
+        # the target parameter is owned by the observation (the optimiser compiles the model's and the observation's
+        # parameters in two passes over one prior table)
+        own = [iso] if case['param'] == 'T' else [gui]
+        model = _Holder([o for o in (iso, gui) if o not in own])
+        obs = _Holder(own)
     expect = {}
+    allparams = dict(model.fittingParameters)
+    allparams.update(obs.fittingParameters)
     # documented defaults of the real parameters must be what PARAMS says (harness sanity)
     for name in ('T', 'kappa_irr', 'alpha'):
-        t = model.fittingParameters[name]
+        t = allparams[name]
         if t[4] != PARAMS[name][0] or list(t[6]) != PARAMS[name][1]:
             r.fail('harness', 'harness/param-defaults-changed', name=name, got=[t[4], list(t[6])])
             return r
     opt = Optimizer('c08', observed=None, model=model)
     opt._observed = obs
     target, other = case['param'], case['other']
-    for name in list(model.fittingParameters):
+    for name in list(allparams):
         opt.disable_fit(name)
     for name in (target, other):
         opt.enable_fit(name)
@@ -369,8 +377,8 @@ def default_case(case):
     names = [p[0] for p in opt.fitting_parameters]
     r.check(sorted(names) == sorted([target, other]) and len(opt.fitting_priors) == 2, 'default-compiled',
             'default/compiled-set', names=names)
-    tagm = '%s/%s%s' % (expect[target][0], 'ordered' if expect[target][1][0] < expect[target][1][1] else 'reversed',
-                        '/recompiled-next-to-user-prior' if pre else '')
+    tagm = '%s/%s%s%s' % (expect[target][0], 'ordered' if expect[target][1][0] < expect[target][1][1] else 'reversed',
+                          '/recompiled-next-to-user-prior' if pre else '', '/observation-owned' if case.get('on_obs') else '')
     cube = []
     for name, prior in zip(names, opt.fitting_priors):
         cube.append(0.25)
@@ -522,6 +530,10 @@ def explore(ctx):
                 dflt.append({'param': param, 'other': other, 'mode': mode, 'bounds': b})
                 if mode is not None or b is not None:
                     dflt.append({'param': param, 'other': other, 'mode': mode, 'bounds': b, 'precompile': True})
+                    if (param, other) in (('T', 'kappa_irr'), ('kappa_irr', 'T')):
+                        dflt.append({'param': param, 'other': other, 'mode': mode, 'bounds': b, 'precompile': True,
+                                     'on_obs': True})
+                        dflt.append({'param': param, 'other': other, 'mode': mode, 'bounds': b, 'on_obs': True})
     ctx.run_cases('default_case', dflt, phase='default')
 
     ctx.bounds.update(u_lattice=len(U), direct=len(direct), lin=len(lin), text=len(text), positional=len(pos),
